@@ -43,7 +43,7 @@ Proof. exact Lifecycle_open_proceeds. Qed.
 Theorem C10_close_idempotent : forall s, Lifecycle_reachable s -> lc_closed s ->
   Lifecycle_exec s LcClose = Some s /\
   Lifecycle_observe1 s LcClose s = [lc_close_snapshot LcCloseRetained s] /\
-  lc_close_snapshot LcCloseRetained s = LcObsCloseRet LcCloseRetained 0 0 0 false.
+  lc_close_snapshot LcCloseRetained s = LcObsCloseRet LcCloseRetained true 0 0 0 false.
 Proof. intros s Hr. exact (Lifecycle_close_idempotent s (proj1 (Lifecycle_reachable_inv s Hr))). Qed.
 Print Assumptions C10_close_idempotent.
 
@@ -108,7 +108,7 @@ Definition C10_trace : list Lifecycle_action :=
 Example C10_closed_reachable_nonvacuous :
   exists s, Lifecycle_run (Lifecycle_init false) C10_trace = Some s /\ lc_closed s /\
             Lifecycle_observe (Lifecycle_init false) C10_trace =
-              [LcObsOpenCall; LcObsDial true; LcObsOpenRet LcOpenOk true; LcObsCloseRet LcCloseOk 0 0 0 false].
+              [LcObsOpenCall; LcObsDial true; LcObsOpenRet LcOpenOk true; LcObsCloseRet LcCloseOk true 0 0 0 false].
 Proof. eexists. split; [vm_compute; reflexivity|]. split; [split; reflexivity|]. vm_compute. reflexivity. Qed.
 Example C10_already_open_nonvacuous :
   exists s, Lifecycle_run (Lifecycle_init false) (firstn 10 C10_trace) = Some s /\
